@@ -130,7 +130,11 @@ func (e *env) toServerSCIONRaw(raw []byte) (raws, payloads [][]byte) {
 
 // replySCION wraps a payload into a SCION/UDP packet that answers the given request datagram:
 // addresses and ports swapped, empty path, no extension headers (so no packet authenticator).
-func replySCION(payload, rawReq []byte) []byte {
+func replySCION(payload, rawReq []byte) []byte { return rewrapSCION(payload, rawReq, true) }
+
+// rewrapSCION: payload in a SCION/UDP packet with the addresses and ports of raw (swapped: as its answer), empty path,
+// no extension headers.
+func rewrapSCION(payload, rawReq []byte, swap bool) []byte {
 	var (
 		scn slayers.SCION
 		hbh slayers.HopByHopExtnSkipper
@@ -153,6 +157,12 @@ func replySCION(payload, rawReq []byte) []byte {
 	out.RawDstAddr, out.RawSrcAddr = scn.RawSrcAddr, scn.RawDstAddr
 	var u slayers.UDP
 	u.SrcPort, u.DstPort = udp.DstPort, udp.SrcPort
+	if !swap {
+		out.DstIA, out.SrcIA = scn.DstIA, scn.SrcIA
+		out.DstAddrType, out.SrcAddrType = scn.DstAddrType, scn.SrcAddrType
+		out.RawDstAddr, out.RawSrcAddr = scn.RawDstAddr, scn.RawSrcAddr
+		u.SrcPort, u.DstPort = udp.SrcPort, udp.DstPort
+	}
 	u.SetNetworkLayerForChecksum(&out)
 	sb := gopacket.NewSerializeBuffer()
 	err := gopacket.SerializeLayers(sb, gopacket.SerializeOptions{ComputeChecksums: true, FixLengths: true},
